@@ -367,6 +367,96 @@ class AddTables(Scenario):
             return "ok"
 
 
+class TableAddColumn(Scenario):
+    """a new column of symbolic values is pushed through the group-wide table view (add_values_to_property_group): every row
+    of the view -- the same view object and a new one -- and every hole read on its own show the value given for that row"""
+    pid = "C04"
+    include_io = True
+    builtins_for = ("geoh5py.objects.drillhole:float,int",)
+
+    def run(self, cx):
+        if self.backend == "real":
+            return super().run(cx)
+        with h5shim.h5_on():
+            return super().run(cx)
+
+    def body(self, cx):
+        from geoh5py.workspace import Workspace
+        from geoh5py.groups import DrillholeGroup
+        from geoh5py.objects import Drillhole
+        reopen, extra = self.params["reopen"], self.params["extra_group_on_first_hole"]
+        h5shim.reset()
+        patch.STUBS_USED.add("h5py -> symx.h5shim proxy over the real in-memory HDF5 file (seam B, A-H5)")
+        ws = Workspace()
+        g = DrillholeGroup.create(ws, name="DH")
+        intervals = {"A": real_np.c_[[0.0, 10.0, 20.0], [5.0, 15.0, 25.0]], "B": real_np.c_[[1.0, 11.0], [6.0, 16.0]]}
+        grades = {"A": real_np.array([1.0, 2.0, 3.0]), "B": real_np.array([40.0, 50.0])}
+        holes = {}
+        for i, nm in enumerate(["A", "B"]):
+            holes[nm] = Drillhole.create(ws, parent=g, name=nm, collar=[10.0 * i, 0.0, 0.0])
+            holes[nm].add_data({"grade": {"from-to": intervals[nm], "values": grades[nm]}}, property_group="assays")
+        if extra:       # the first hole gets a second table after the second hole exists
+            holes["A"].add_data({"gamma": {"depth": real_np.array([2.0, 4.0, 6.0, 8.0]), "values": real_np.array([0.1, 0.2, 0.3, 0.4])}},
+                                property_group="logs")
+        if reopen:
+            ws.close()
+        del holes
+        with self.engine(cx) as X:
+            if reopen:
+                ws = Workspace(ws.h5file)
+            g = [x for x in ws.groups if x.name == "DH"][0]
+            hs = {h.name: h for h in g.children if hasattr(h, "collar")}
+            for h in hs.values():
+                _ = h.property_groups
+            table = g.drillholes_tables["assays"]
+            view = table.depth_table
+            names = {"{" + str(h.uid) + "}": h.name for h in hs.values()}
+            owner = [names[k.decode() if isinstance(k, bytes) else str(k)] for k in view["Drillhole"].tolist()]
+            nrow = len(owner)
+            cx.prove(sorted(owner) == ["A"] * 3 + ["B"] * 2, "the view lists the three intervals of A and the two of B", "table")
+            newv = [cx.real(f"n{r}") for r in range(nrow)]
+            assume_not_ndv(cx, newv)
+            table.add_values_to_property_group("au", mk_array(X, newv, (nrow,), "float64"))
+            expect = {nm: [newv[r] for r in range(nrow) if owner[r] == nm] for nm in ("A", "B")}
+
+            def check_view(tb, tag):
+                tv = tb.depth_table_by_name("au", spatial_index=True)
+                col = list(tv.dtype.names)
+                rows = [tuple(r) for r in tv.tolist()]
+                for nm in ("A", "B"):
+                    mine = [r[col.index("au")] for r in rows
+                            if names.get(r[col.index("Drillhole")].decode() if isinstance(r[col.index("Drillhole")], bytes)
+                                         else str(r[col.index("Drillhole")])) == nm]
+                    cx.prove(len(mine) == len(expect[nm]) and And([eq(a, b) for a, b in zip(mine, expect[nm])]),
+                             f"{tag}: the rows of hole {nm} show the values given for them", "table follows updates")
+
+            def check_holes(group, tag):
+                for h in group.children:
+                    if not hasattr(h, "collar"):
+                        continue
+                    dd = h.get_data("au")
+                    cx.prove(len(dd) == 1, f"{tag}: hole {h.name} has the new data set", "target")
+                    if len(dd) == 1:
+                        got = elems(dd[0].values)
+                        cx.prove(len(got) == len(expect[h.name]) and And([eq(a, b) for a, b in zip(got, expect[h.name])]),
+                                 f"{tag}: hole {h.name} reads back its own values", "target")
+                    gg = [float(v) for v in elems(h.get_data("grade")[0].values)]
+                    cx.prove(gg == [float(v) for v in grades[h.name]], f"{tag}: hole {h.name} keeps its earlier column", "frame")
+            check_view(table, "same table view")
+            check_view(g.drillholes_tables["assays"], "new table view")
+            check_holes(g, "live")
+            ws.close()
+            ws2 = Workspace(ws.h5file)
+            g2 = [x for x in ws2.groups if x.name == "DH"][0]
+            for h in g2.children:
+                if hasattr(h, "collar"):
+                    _ = h.property_groups
+            check_holes(g2, "re-read")
+            check_view(g2.drillholes_tables["assays"], "re-read table view")
+            ws2.close()
+            return "ok"
+
+
 class CopyGroupThenEdit(Scenario):
     """copy the whole group into another workspace, update / remove data in the copy: the source holes keep their values,
     the copy's holes read back the values last written (in memory and through fresh readers)"""
@@ -611,6 +701,7 @@ def scenarios(tier, seed):
         S += [CopyGroupThenEdit(sizes=[2, 2, 1], target=0, op="update"), CopyGroupThenEdit(sizes=[1, 2, 2], target=1, op="remove")]
         S += [AddTables(sizes=[1, 2], target=0, rows=2, kind="interval"), AddTables(sizes=[2, 1], target=1, rows=1, kind="interval"),
               AddTables(sizes=[1, 1], target=0, rows=2, kind="depth")]
+        S += [TableAddColumn(reopen=True, extra_group_on_first_hole=True), TableAddColumn(reopen=False, extra_group_on_first_hole=False)]
         S += [GroupTable(sizes=[2, 0, 1], then_update=0), GroupTable(sizes=[1, 2], then_update=1), GroupTable(sizes=[1, 1, 2])]
     else:
         shapes = _shape_tuples(2, 3) + _shape_tuples(3, 2) + [t for t in _shape_tuples(3, 3) if 3 in t][:12] + \
@@ -636,6 +727,7 @@ def scenarios(tier, seed):
             for tgt in range(len(sz)):
                 for op in ("update", "remove"):
                     S.append(CopyGroupThenEdit(sizes=sz, target=tgt, op=op))
+        S += [TableAddColumn(reopen=r_, extra_group_on_first_hole=x_) for r_ in (False, True) for x_ in (False, True)]
         for rows in (1, 2, 3):
             for kind in ("interval", "depth"):
                 for tgt in (0, 1):
@@ -671,6 +763,6 @@ def main(tier, seed):
                          "setter on depth data (any length) / value data (same, shorter, longer length), "
                          "workspace.remove_entity(data), parent.remove_children([data])",
                 "thorough": "k in 2..4 holes, sizes<=3, new length in {0,1,2,4}, every target, both format versions"}[tier],
-        expected_outcomes={"UpdateValues": {"ok"}, "RemoveData": {"ok"}, "RemoveHole": {"ok"}, "GroupTable": {"ok"}, "StoredStep": {"ok"}, "CopyGroupThenEdit": {"ok"}, "AddTables": {"ok"}},
+        expected_outcomes={"UpdateValues": {"ok"}, "RemoveData": {"ok"}, "RemoveHole": {"ok"}, "GroupTable": {"ok"}, "StoredStep": {"ok"}, "CopyGroupThenEdit": {"ok"}, "AddTables": {"ok"}, "TableAddColumn": {"ok"}},
         budget_s=600 if tier == "quick" else 3000,
     )
